@@ -2,6 +2,10 @@ package main
 
 // May-write analysis: which heap arrays, and which *shapes* of addresses in them, a function may
 // write (transitively). Used for havoc + frame at calls and loop heads.
+//
+//   - cell arrays (H_<type>): the set of field ids written, element cells, object cells, or "any";
+//   - map arrays (MD_/MV_/MC_): the set of *root values* (parameters, or values defined outside the
+//     region) whose maps are written, or "any". Maps created inside the region are fresh and not recorded.
 
 import (
 	"fmt"
@@ -13,10 +17,15 @@ import (
 )
 
 type writeShape struct {
-	fids map[int]bool
-	elem bool
-	obj  bool
-	any  bool
+	fids  map[int]bool
+	elem  bool
+	obj   bool
+	any   bool
+	roots map[ssa.Value]bool // map keys only: the maps written are exactly the values of these
+}
+
+func newShape() *writeShape {
+	return &writeShape{fids: map[int]bool{}, roots: map[ssa.Value]bool{}}
 }
 
 func (s *writeShape) merge(o *writeShape) bool {
@@ -24,6 +33,12 @@ func (s *writeShape) merge(o *writeShape) bool {
 	for f := range o.fids {
 		if !s.fids[f] {
 			s.fids[f] = true
+			ch = true
+		}
+	}
+	for r := range o.roots {
+		if !s.roots[r] {
+			s.roots[r] = true
 			ch = true
 		}
 	}
@@ -52,7 +67,7 @@ func newModset() *modset {
 func (m *modset) shape(key string) *writeShape {
 	s, ok := m.real[key]
 	if !ok {
-		s = &writeShape{fids: map[int]bool{}}
+		s = newShape()
 		m.real[key] = s
 	}
 	return s
@@ -102,6 +117,12 @@ func (m *modset) String() string {
 		for _, f := range fs {
 			sh = append(sh, fmt.Sprintf("f%d", f))
 		}
+		var rs []string
+		for r := range s.roots {
+			rs = append(rs, "@"+r.Name())
+		}
+		sort.Strings(rs)
+		sh = append(sh, rs...)
 		if s.elem {
 			sh = append(sh, "elem")
 		}
@@ -124,20 +145,77 @@ func (m *modset) String() string {
 	return strings.Join(parts, " ")
 }
 
+type rootKind int
+
+const (
+	rAny rootKind = iota
+	rFresh
+	rValue
+)
+
+type resKind struct {
+	kind  rootKind
+	param int // for rValue in summaries: index of the parameter the result aliases
+}
+
 // modAnalysis computes mod-sets for all module functions.
 type modAnalysis struct {
-	w    *world
-	c    *smtctx // only used for key naming (sorts)
-	sets map[*ssa.Function]*modset
+	w        *world
+	c        *smtctx // only used for key naming (sorts)
+	sets     map[*ssa.Function]*modset
 	keyTypes map[string]types.Type
+	results  map[*ssa.Function][]resKind // per result: fresh / alias of parameter / unknown
 }
 
 func (w *world) computeModsets() *modAnalysis {
-	ma := &modAnalysis{w: w, c: newSMT(w), sets: map[*ssa.Function]*modset{}, keyTypes: map[string]types.Type{}}
+	ma := &modAnalysis{w: w, c: newSMT(w), sets: map[*ssa.Function]*modset{}, keyTypes: map[string]types.Type{}, results: map[*ssa.Function][]resKind{}}
 	var fns []*ssa.Function
 	for _, n := range sortedKeys(w.funcs) {
 		fns = append(fns, w.funcs[n])
 		ma.sets[w.funcs[n]] = newModset()
+	}
+	// result summaries first (optimistic start: fresh; iterate downwards)
+	for _, fn := range fns {
+		n := fn.Signature.Results().Len()
+		rk := make([]resKind, n)
+		for i := range rk {
+			rk[i] = resKind{kind: rFresh}
+		}
+		ma.results[fn] = rk
+	}
+	for changed := true; changed; {
+		changed = false
+		for _, fn := range fns {
+			if fn.Blocks == nil {
+				continue
+			}
+			for _, b := range fn.Blocks {
+				ret, ok := b.Instrs[len(b.Instrs)-1].(*ssa.Return)
+				if !ok {
+					continue
+				}
+				for i, r := range ret.Results {
+					k, v := ma.valueRoot(r, nil, 0)
+					nk := resKind{kind: k}
+					if k == rValue {
+						if p, ok := v.(*ssa.Parameter); ok && p.Parent() == fn {
+							nk.param = paramIndex(p)
+						} else {
+							nk.kind = rAny
+						}
+					}
+					if isConstNil(r) {
+						continue
+					}
+					cur := ma.results[fn][i]
+					merged := mergeRes(cur, nk)
+					if merged != cur {
+						ma.results[fn][i] = merged
+						changed = true
+					}
+				}
+			}
+		}
 	}
 	for changed := true; changed; {
 		changed = false
@@ -151,40 +229,164 @@ func (w *world) computeModsets() *modAnalysis {
 	return ma
 }
 
-// isFreshRoot reports whether the address/map/slice value is rooted at an allocation performed inside
-// the region (blocks==nil means the whole function).
-func (ma *modAnalysis) freshRoot(v ssa.Value, in map[*ssa.BasicBlock]bool) bool {
-	for depth := 0; depth < 20; depth++ {
-		switch x := v.(type) {
-		case *ssa.Alloc:
-			return in == nil || in[x.Block()]
-		case *ssa.MakeSlice:
-			return in == nil || in[x.Block()]
-		case *ssa.MakeMap:
-			return in == nil || in[x.Block()]
-		case *ssa.FieldAddr:
-			v = x.X
-		case *ssa.IndexAddr:
-			v = x.X
-		case *ssa.Slice:
-			v = x.X
-		case *ssa.Call:
-			if b, ok := x.Call.Value.(*ssa.Builtin); ok && b.Name() == "append" {
-				return in == nil || in[x.Block()]
-			}
-			return false
-		default:
-			return false
+func isConstNil(v ssa.Value) bool {
+	c, ok := v.(*ssa.Const)
+	return ok && c.Value == nil
+}
+
+func mergeRes(a, b resKind) resKind {
+	if a.kind == rFresh {
+		return b
+	}
+	if b.kind == rFresh {
+		return a
+	}
+	if a.kind == rValue && b.kind == rValue && a.param == b.param {
+		return a
+	}
+	return resKind{kind: rAny}
+}
+
+func paramIndex(p *ssa.Parameter) int {
+	for i, q := range p.Parent().Params {
+		if q == p {
+			return i
 		}
 	}
-	return false
+	return -1
+}
+
+// valueRoot classifies where a reference value comes from: a fresh allocation inside the region, a specific
+// SSA value defined outside it (parameter, earlier allocation, ...), or unknown.
+func (ma *modAnalysis) valueRoot(v ssa.Value, in map[*ssa.BasicBlock]bool, depth int) (rootKind, ssa.Value) {
+	if depth > 12 {
+		return rAny, nil
+	}
+	inRegion := func(i ssa.Instruction) bool { return in == nil || in[i.Block()] }
+	switch x := v.(type) {
+	case *ssa.Parameter:
+		return rValue, x
+	case *ssa.Alloc:
+		if inRegion(x) {
+			return rFresh, nil
+		}
+		return rValue, x
+	case *ssa.MakeSlice:
+		if inRegion(x) {
+			return rFresh, nil
+		}
+		return rValue, x
+	case *ssa.MakeMap:
+		if inRegion(x) {
+			return rFresh, nil
+		}
+		return rValue, x
+	case *ssa.FieldAddr:
+		return ma.valueRoot(x.X, in, depth+1)
+	case *ssa.IndexAddr:
+		return ma.valueRoot(x.X, in, depth+1)
+	case *ssa.Slice:
+		return ma.valueRoot(x.X, in, depth+1)
+	case *ssa.ChangeType:
+		return ma.valueRoot(x.X, in, depth+1)
+	case *ssa.MakeInterface:
+		return ma.valueRoot(x.X, in, depth+1)
+	case *ssa.Phi:
+		var kind rootKind = rFresh
+		var val ssa.Value
+		for _, e := range x.Edges {
+			if e == v || isConstNil(e) {
+				continue
+			}
+			k, r := ma.valueRoot(e, in, depth+1)
+			switch {
+			case k == rAny:
+				return rAny, nil
+			case k == rValue && kind == rValue && r != val:
+				return rAny, nil
+			case k == rValue:
+				kind, val = rValue, r
+			}
+		}
+		return kind, val
+	case *ssa.Call:
+		if b, ok := x.Call.Value.(*ssa.Builtin); ok && b.Name() == "append" {
+			if inRegion(x) {
+				return rFresh, nil
+			}
+			return rValue, x
+		}
+		if x.Call.Signature().Results().Len() == 1 {
+			return ma.callResultRoot(x, 0, in, depth)
+		}
+		return rAny, nil
+	case *ssa.Extract:
+		if call, ok := x.Tuple.(*ssa.Call); ok {
+			return ma.callResultRoot(call, x.Index, in, depth)
+		}
+		return rAny, nil
+	}
+	return rAny, nil
+}
+
+func (ma *modAnalysis) callResultRoot(call *ssa.Call, idx int, in map[*ssa.BasicBlock]bool, depth int) (rootKind, ssa.Value) {
+	fns, unk := ma.callees(call.Common())
+	if unk != "" || len(fns) == 0 {
+		return rAny, nil
+	}
+	var kind rootKind = rFresh
+	var val ssa.Value
+	for _, f := range fns {
+		rk, ok := ma.results[f]
+		if !ok || idx >= len(rk) {
+			return rAny, nil
+		}
+		switch rk[idx].kind {
+		case rAny:
+			return rAny, nil
+		case rFresh:
+			if !(in == nil || in[call.Block()]) {
+				// allocated by a call outside the region: a specific pre-existing value
+				if kind == rValue && val != ssa.Value(call) {
+					return rAny, nil
+				}
+				kind, val = rValue, call
+			}
+		case rValue:
+			args := callArgs(call.Common())
+			if rk[idx].param >= len(args) {
+				return rAny, nil
+			}
+			k, r := ma.valueRoot(args[rk[idx].param], in, depth+1)
+			switch {
+			case k == rAny:
+				return rAny, nil
+			case k == rValue && kind == rValue && r != val:
+				return rAny, nil
+			case k == rValue:
+				kind, val = rValue, r
+			}
+		}
+	}
+	return kind, val
+}
+
+// callArgs returns the actual arguments aligned with the callee's parameters (receiver first for invokes).
+func callArgs(c *ssa.CallCommon) []ssa.Value {
+	if c.IsInvoke() {
+		return append([]ssa.Value{c.Value}, c.Args...)
+	}
+	if mc, ok := c.Value.(*ssa.MakeClosure); ok {
+		return append(append([]ssa.Value{}, c.Args...), mc.Bindings...)
+	}
+	return c.Args
 }
 
 func (ma *modAnalysis) recordStore(ms *modset, addr ssa.Value, t types.Type, in map[*ssa.BasicBlock]bool) {
-	fresh := ma.freshRoot(addr, in)
+	kind, _ := ma.valueRoot(addr, in, 0)
 	for _, lf := range ma.c.leaves(t) {
 		key := ma.cellKey(lf.typ)
-		if fresh {
+		if kind == rFresh {
 			ms.fresh[key] = true
 			continue
 		}
@@ -203,6 +405,21 @@ func (ma *modAnalysis) recordStore(ms *modset, addr ssa.Value, t types.Type, in 
 			sh.obj = true
 		default:
 			sh.any = true
+		}
+	}
+}
+
+func (ma *modAnalysis) recordMapWrite(ms *modset, m ssa.Value, in map[*ssa.BasicBlock]bool) {
+	md, mv, mc := ma.mapKeys(m.Type())
+	kind, val := ma.valueRoot(m, in, 0)
+	for _, k := range []string{md, mv, mc} {
+		switch kind {
+		case rFresh:
+			ms.fresh[k] = true
+		case rValue:
+			ms.shape(k).roots[val] = true
+		default:
+			ms.shape(k).any = true
 		}
 	}
 }
@@ -234,7 +451,53 @@ func (ma *modAnalysis) callees(call *ssa.CallCommon) (fns []*ssa.Function, unkno
 	return nil, "dynamic call " + call.Value.Name()
 }
 
-// region computes the direct+transitive writes of a set of blocks of fn (nil = all).
+// mergeCallee adds the effects of callee summary cs at a call site: parameter roots are translated to the roots of
+// the actual arguments.
+func (ma *modAnalysis) mergeCallee(ms *modset, cs *modset, call *ssa.CallCommon, in map[*ssa.BasicBlock]bool) {
+	args := callArgs(call)
+	for k, s := range cs.real {
+		sh := ms.shape(k)
+		for f := range s.fids {
+			sh.fids[f] = true
+		}
+		sh.elem = sh.elem || s.elem
+		sh.obj = sh.obj || s.obj
+		sh.any = sh.any || s.any
+		for r := range s.roots {
+			p, ok := r.(*ssa.Parameter)
+			idx := -1
+			if ok {
+				idx = paramIndex(p)
+			}
+			if idx < 0 || idx >= len(args) {
+				sh.any = true
+				continue
+			}
+			kind, val := ma.valueRoot(args[idx], in, 0)
+			switch kind {
+			case rFresh:
+				ms.fresh[k] = true
+			case rValue:
+				sh.roots[val] = true
+			default:
+				sh.any = true
+			}
+		}
+		// a shape with nothing in it (can happen when all roots were fresh) is dropped
+		if !sh.any && !sh.elem && !sh.obj && len(sh.fids) == 0 && len(sh.roots) == 0 {
+			delete(ms.real, k)
+		}
+	}
+	for k := range cs.fresh {
+		ms.fresh[k] = true
+	}
+	for _, u := range cs.unknown {
+		ms.unknown = append(ms.unknown, u)
+	}
+}
+
+// region computes the direct+transitive writes of a set of blocks of fn (nil = all). For the whole-function
+// summary only parameter roots are kept (other pre-existing values cannot exist).
 func (ma *modAnalysis) region(fn *ssa.Function, in map[*ssa.BasicBlock]bool) *modset {
 	ms := newModset()
 	c := ma.c
@@ -269,12 +532,7 @@ func (ma *modAnalysis) region(fn *ssa.Function, in map[*ssa.BasicBlock]bool) *mo
 				md, mv, mc := ma.mapKeys(x.Type())
 				ms.fresh[md], ms.fresh[mv], ms.fresh[mc] = true, true, true
 			case *ssa.MapUpdate:
-				md, mv, mc := ma.mapKeys(x.Map.Type())
-				if ma.freshRoot(x.Map, in) {
-					ms.fresh[md], ms.fresh[mv], ms.fresh[mc] = true, true, true
-				} else {
-					ms.shape(md).any, ms.shape(mv).any, ms.shape(mc).any = true, true, true
-				}
+				ma.recordMapWrite(ms, x.Map, in)
 			case ssa.CallInstruction:
 				call := x.Common()
 				if b, ok := call.Value.(*ssa.Builtin); ok {
@@ -284,12 +542,7 @@ func (ma *modAnalysis) region(fn *ssa.Function, in map[*ssa.BasicBlock]bool) *mo
 							ms.fresh[ma.cellKey(lf.typ)] = true
 						}
 					case "delete":
-						md, mv, mc := ma.mapKeys(call.Args[0].Type())
-						if ma.freshRoot(call.Args[0], in) {
-							ms.fresh[md], ms.fresh[mv], ms.fresh[mc] = true, true, true
-						} else {
-							ms.shape(md).any, ms.shape(mv).any, ms.shape(mc).any = true, true, true
-						}
+						ma.recordMapWrite(ms, call.Args[0], in)
 					case "copy":
 						for _, lf := range c.leaves(call.Args[0].Type().Underlying().(*types.Slice).Elem()) {
 							ms.shape(ma.cellKey(lf.typ)).elem = true
@@ -303,7 +556,7 @@ func (ma *modAnalysis) region(fn *ssa.Function, in map[*ssa.BasicBlock]bool) *mo
 				}
 				for _, f := range fns {
 					if cs, ok := ma.sets[f]; ok {
-						ms.merge(cs)
+						ma.mergeCallee(ms, cs, call, in)
 					} else if ct := ma.w.db.Contracts[f.String()]; ct != nil {
 						for _, k := range ct.Modifies {
 							ms.shape(k).any = true
@@ -313,6 +566,16 @@ func (ma *modAnalysis) region(fn *ssa.Function, in map[*ssa.BasicBlock]bool) *mo
 			}
 		}
 	}
+	// dedupe unknowns
+	seen := map[string]bool{}
+	var unk []string
+	for _, u := range ms.unknown {
+		if !seen[u] {
+			seen[u] = true
+			unk = append(unk, u)
+		}
+	}
+	ms.unknown = unk
 	return ms
 }
 
